@@ -30,7 +30,10 @@ def gen_cases(ctx, n):
         S, C, kinds = polys.gen_genpos_case(rng)
         reg = polys.REGIMES[len(cases) % len(polys.REGIMES)] if not rng.chance(1, 4) else polys.REGIMES[0]
         S2, C2, tf = polys.apply_regime(rng, S, C, reg)
-        cases.append(dict(S=S2, C=C2, regime=reg[0], k=tf[0], kinds=kinds, base=(S, C)))
+        probes = rng.chance(2, 5) or tf[0] >= 2 ** 44      # always at the magnitudes where binary64 cannot hold the coordinates
+        if probes:      # scanlines right next to edge crossings (see polys.add_scanline_probes)
+            S2, C2 = polys.add_scanline_probes(rng, S2, C2, k=tf[0], nmax=3 if tf[0] < 2 ** 40 else 12)
+        cases.append(dict(S=S2, C=C2, regime=reg[0] + ('+probes' if probes else ''), k=tf[0], kinds=kinds, base=(S, C)))
     return cases
 
 
@@ -285,7 +288,7 @@ def run(ctx):
     except vf.BuildFailure as e:
         ctx.violation('tie-break:cx_bool', 'boolean harness no longer builds: %s' % str(e)[-600:], replay=dict(error=str(e)[-2000:]), nofail=True)
         return
-    n = 64 if ctx.quick else 1200
+    n = 420 if ctx.quick else 2400
     G = 20 if ctx.quick else 40
     broken = not pr['ok']
     if broken:
